@@ -1090,6 +1090,46 @@ def rule_R22(toks, fired):
     return toks
 
 
+def rule_R23(toks, fired):
+    """slice searches at type usize, as calls of prelude helpers with ASSUMED (documented-std) contracts:
+         X.binary_search(&V)                 ->  usize_binary_search(&X, &V)      (&X: the auto-ref of the method call)
+         X.partition_point(|&v| v < E)       ->  usize_partition_point_lt(X, E)
+         X.partition_point(|&v| E > v)       ->  usize_partition_point_lt(X, E)      (the same predicate)
+       any other closure shape is outside the rule (ExtractError => undecided)"""
+    i = 0
+    while i < len(toks):
+        t = toks[i]
+        if t.kind == "ident" and t.text in ("binary_search", "partition_point") and not t.syn \
+                and toks[prev_code(toks, i - 1)].text == "." and toks[next_code(toks, i + 1)].text == "(":
+            dot = prev_code(toks, i - 1)
+            p = next_code(toks, i + 1)
+            pe = match_close(toks, p)
+            a = _postfix_start(toks, dot)
+            recv = toks[a:dot]
+            if t.text == "binary_search":
+                new = synth("usize_binary_search(&") + recv + synth(", ") + _strip_ws(toks[p + 1:pe]) + synth(")")
+            else:
+                pat, body = _closure_parts(toks, p, pe)
+                pc = [x for x in pat if x.kind not in ("ws", "comment")]
+                if not (len(pc) == 2 and pc[0].text == "&" and pc[1].kind == "ident"):
+                    raise ExtractError("R23: partition_point closure parameter is not |&v|")
+                v = pc[1].text
+                bc = [k for k, x in enumerate(body) if x.kind not in ("ws", "comment")]
+                if len(bc) >= 3 and body[bc[0]].text == v and body[bc[1]].text == "<" and not any(body[k].text == v for k in bc[2:]):
+                    bound = body[bc[2]:]
+                elif len(bc) >= 3 and body[bc[-1]].text == v and body[bc[-2]].text == ">" and not any(body[k].text == v for k in bc[:-2]):
+                    bound = body[:bc[-2]]
+                else:
+                    raise ExtractError("R23: partition_point predicate is not `v < E` / `E > v`")
+                new = synth("usize_partition_point_lt(&") + recv + synth(", ") + _strip_ws(bound) + synth(")")
+            toks = toks[:a] + new + toks[pe + 1:]
+            fired["R23"] = fired.get("R23", 0) + 1
+            i = a + 1
+            continue
+        i += 1
+    return toks
+
+
 def rule_R18(toks, fired):
     """bare max(a, b) / min(a, b) (core::cmp, imported by `use`) -> usize_max(a, b) / usize_min(a, b): the generic
     Ord-based functions have no Verus spec; the prelude helpers are ASSUMED to be the usize instances"""
@@ -1210,9 +1250,9 @@ def rule_R12(toks, fired):
     return out
 
 
-RULES = {"R22": rule_R22, "R21": rule_R21, "R20": rule_R20, "R19": rule_R19, "R18": rule_R18, "R17": rule_R17, "R13": rule_R13, "R5": rule_R5, "R1": rule_R1, "R1f": rule_R1f, "R2": rule_R2, "R3": rule_R3, "R4": rule_R4, "R6": rule_R6, "R7": rule_R7,
+RULES = {"R23": rule_R23, "R22": rule_R22, "R21": rule_R21, "R20": rule_R20, "R19": rule_R19, "R18": rule_R18, "R17": rule_R17, "R13": rule_R13, "R5": rule_R5, "R1": rule_R1, "R1f": rule_R1f, "R2": rule_R2, "R3": rule_R3, "R4": rule_R4, "R6": rule_R6, "R7": rule_R7,
          "R10": rule_R10, "R11": rule_R11, "R12": rule_R12}
-RULE_ORDER = ["R12", "R7", "R6", "R13", "R18", "R19", "R17", "R21", "R22", "R20", "R10", "R4", "R3", "R5", "R11", "R2", "R1", "R1f"]
+RULE_ORDER = ["R12", "R7", "R6", "R13", "R18", "R19", "R17", "R21", "R22", "R23", "R20", "R10", "R4", "R3", "R5", "R11", "R2", "R1", "R1f"]
 
 
 def apply_rules(toks, rules, fired):
